@@ -472,6 +472,8 @@ class Sandbox:
         """ Removes the history of any previous executions. """
         self._context_group_start.clear()
         self._context.clear()
+        # Context IDs index into ``_context``, so they restart with it
+        self._next_context_id = 0
 
     ############################################################################
     # Tracing
